@@ -2,6 +2,7 @@
 # development aid: apply a patch to the scratch worktree /tmp/dev_repo and run a check against it (build dir /verif/build_dev,
 # outputs under /tmp/p/devout), then revert. /repo and /verif/build are not touched.
 # usage: dev_check.sh <patch.diff> <property> [tier] [budget seconds]
+[ -d /tmp/dev_repo ] || git -C /repo worktree add -q --detach /tmp/dev_repo HEAD  # scratch worktree; remove with: git -C /repo worktree remove --force /tmp/dev_repo
 P=$1; PROP=$2; TIER=${3:-quick}; B=${4:-40}
 git -C /tmp/dev_repo checkout -q -- . && git -C /tmp/dev_repo apply "$P" || exit 2
 rm -rf /tmp/p/devout/replays/$PROP
